@@ -539,7 +539,7 @@ func RunC07(c *Ctx) {
 	c.Res.Exhaustive[fmt.Sprintf("all_operator_trees_with<=%d_operator_occurrences_x_{minimal,full}_parenthesisation", K)] = true
 	// random larger trees
 	r := gen.NewRand(c.Seed, 700+uint64(c.Shard))
-	for i := 0; i < c.Pick(40_000, 800_000)/ns; i++ {
+	for i := 0; i < c.Pick(120_000, 1_500_000)/ns; i++ {
 		t := randTree(r, K+1+r.IntN(12-K))
 		check(t, r.IntN(1000))
 		if i%5000 == 0 {
